@@ -676,6 +676,12 @@ def _expand(helper, call, caller, cls, target_names: set, mode: str, tuple_targe
             # `a = h(.., a)`: the caller's `a` is dead once the call is made, the parameter can live in it
             mapping[p] = arg.id
             continue
+        if p in stored and mode == "tail" and isinstance(arg, ast.Name) and arg.id in caller_names \
+                and sum(1 for a2 in bound.values() if isinstance(a2, ast.Name) and a2.id == arg.id) == 1 \
+                and arg.id not in (_local_names(helper) - {p}):
+            # `return h(.., a)`: nothing of the caller runs after the call, its `a` is dead as well
+            mapping[p] = arg.id
+            continue
         name = p if (p not in caller_names or (isinstance(arg, ast.Name) and arg.id == p)) else f"{p}__{helper.name.strip('_')}"
         if not (isinstance(arg, ast.Name) and arg.id == name):
             pre.append(ast.copy_location(ast.Assign([ast.Name(name, ast.Store())], copy.deepcopy(arg), lineno=call.lineno), call))
